@@ -4,6 +4,7 @@ import (
 	"context"
 	"fmt"
 	"os"
+	"strings"
 	"testing"
 	"time"
 
@@ -237,6 +238,11 @@ func TestCrashAfterDiscard(t *testing.T) {
 				case svTorn:
 					sv.Keep = rapid.IntRange(0, p.Flushed).Draw(rt, "keep")
 					sv.Torn = rapid.IntRange(1, 64).Draw(rt, "torn")
+					if w.cfg.Prealloc && p.Log == "commit" && vk.Excluded("K18-prealloc-torn-commit-log-entry") {
+						// known finding K18 (same exclusion as in TestCrashRecovery)
+						sv.Torn = -1
+						vk.CountExcluded("K18-prealloc-torn-commit-log-entry")
+					}
 				}
 				keep[p.Log] = sv
 			}
@@ -247,7 +253,16 @@ func TestCrashAfterDiscard(t *testing.T) {
 				rt.Fatalf("harness: materialise at %d: %v", k, err)
 			}
 			what := fmt.Sprintf("discard scenario a=%d b=%d d=%d c=%d leave=%d, crash before event %d/%d, acked=%d, survive=%s", a, b, d, cNew, allowExtra, k, len(evs), acked, cl)
+			dumpFile := os.Getenv("VERIF_C03_DUMP") // debugging aid: event log and survival choice of a failing image
+			if dumpFile != "" {
+				dumpSeq++
+				dumpFile = fmt.Sprintf("%s-%d-%d", dumpFile, os.Getpid(), dumpSeq)
+				dumpImage(dumpFile, evs, k, what, keep)
+			}
 			verifyRecovered(rt, c, w, dst, acked, what)
+			if dumpFile != "" {
+				os.Remove(dumpFile) // kept only when verifyRecovered failed (it does not return then)
+			}
 			os.RemoveAll(dst)
 			e := vk.NewEnum("TestCrashAfterDiscard/images")
 			e.Descf("a=%d b=%d d=%d c=%d|k=%d/%d|%s", a, b, d, cNew, k, len(evs), cl)
@@ -261,4 +276,26 @@ func TestCrashAfterDiscard(t *testing.T) {
 			c.NonTrivial()
 		}
 	})
+}
+
+var dumpSeq int
+
+// dumpImage appends a compact rendering of the event log (tx, commit and value logs) and the survival choice to file f.
+func dumpImage(f string, evs []fsim.Event, k int, what string, keep map[string]fsim.Survive) {
+	out, err := os.OpenFile(f, os.O_CREATE|os.O_WRONLY|os.O_TRUNC, 0644)
+	if err != nil {
+		return
+	}
+	defer out.Close()
+	fmt.Fprintf(out, "== %s\nkeep=%+v\n", what, keep)
+	for _, e := range evs[:k] {
+		if e.Kind == 'M' {
+			fmt.Fprintf(out, "%d MARK %s %d\n", e.Seq, e.Mark, e.Val)
+			continue
+		}
+		if e.Log != "tx" && e.Log != "commit" && !strings.HasPrefix(e.Log, "val_") {
+			continue
+		}
+		fmt.Fprintf(out, "%d %s %c off=%d len=%d\n", e.Seq, e.Log, e.Kind, e.Off, len(e.Data))
+	}
 }
